@@ -250,6 +250,7 @@ impl AssociationInformation for AssocInfo {
 #[derive(Clone, Debug)]
 pub struct MCfg {
     pub tx: usize,
+    pub rx: usize,
     pub decode_all: bool,
     pub close_on_error: bool,
     pub reconnect_delay_ms: u64,
@@ -257,7 +258,7 @@ pub struct MCfg {
 
 impl Default for MCfg {
     fn default() -> Self {
-        Self { tx: 2048, decode_all: true, close_on_error: true, reconnect_delay_ms: 1000 }
+        Self { tx: 2048, rx: 2048, decode_all: true, close_on_error: true, reconnect_delay_ms: 1000 }
     }
 }
 
@@ -302,6 +303,7 @@ impl MSim {
         let slog: SessionLog = Default::default();
         let mut mc = MasterChannelConfig::new(EndpointAddress::try_new(MASTER_ADDR).unwrap());
         mc.tx_buffer_size = BufferSize::new(cfg.tx).unwrap();
+        mc.rx_buffer_size = BufferSize::new(cfg.rx).unwrap();
         mc.decode_level = if cfg.decode_all { decode_everything() } else { DecodeLevel::nothing() };
         let link = LinkSettings {
             error_mode: if cfg.close_on_error { LinkErrorMode::Close } else { LinkErrorMode::Discard },
